@@ -136,6 +136,62 @@ def drv(kinds, keys, order, preserve, remove_idx=None):
     return snap, after, same_objs, got, exp, fresh, out is not lib
 
 
+def drv_reuse(kinds, keys, keys2, order, preserve):
+    """one sorter instance on two libraries (same kinds, other keys): each result equals that of a fresh instance"""
+    desc = lambda lib: [(type(b), b.start_line, b.raw, block_key(b)) for b in lib.blocks]
+    mw = SortBlocksByTypeAndKeyMiddleware(block_type_order=order, preserve_comments_on_top=preserve)
+    r1 = desc(mw.transform(Library(build(kinds, keys))))
+    r2 = desc(mw.transform(Library(build(kinds, keys2))))
+    f1 = desc(SortBlocksByTypeAndKeyMiddleware(block_type_order=order, preserve_comments_on_top=preserve).transform(Library(build(kinds, keys))))
+    f2 = desc(SortBlocksByTypeAndKeyMiddleware(block_type_order=order, preserve_comments_on_top=preserve).transform(Library(build(kinds, keys2))))
+    return r1, f1, r2, f2
+
+
+def task_reuse(kinds):
+    total = None
+    for oname, preserve in itertools.product(("default", "reversed"), (True, False)):
+        eng = Engine()
+        rec = Recorder(eng)
+        keys = [eng.sym_str(f"k{i}_", 1, "ab") if kd in "SE" else "" for i, kd in enumerate(kinds)]
+        keys2 = [mk([c.map(lambda ch: "b" if ch == "a" else "a") for c in chars(k)]) if kd in "SE" else "" for k, kd in zip(keys, kinds)]
+        E = eng.I.models.eq_simple
+        worlds = eng.run(drv_reuse, [kinds, keys, keys2, ORDERS[oname], preserve])
+
+        def rp(m):
+            import logging
+            logging.disable(logging.CRITICAL)
+            ks = eng.model_value(m, keys)
+            ks2 = ["".join("b" if ch == "a" else "a" for ch in k) for k in ks]
+            try:
+                r1, f1, r2, f2 = drv_reuse(kinds, ks, ks2, ORDERS[oname], preserve)
+            except Exception as ex:  # noqa
+                return {"input": [kinds, ks, oname, preserve], "observed": f"raised {type(ex).__name__}: {ex}", "expected": "sorted libraries"}
+            if r1 == f1 and r2 == f2:
+                return None
+            return {"input": [kinds, ks, oname, preserve], "observed": {"second library through the same instance": [(t.__name__, l, k) for t, l, r, k in r2]},
+                    "expected": [(t.__name__, l, k) for t, l, r, k in f2]}
+        for W in worlds:
+            if W.exc is not None:
+                rec.require(W, True, "reuse-no-exception", rp)
+                continue
+            r1, f1, r2, f2 = W.result
+            rec.require(W, b_not(b_and(E(r1, f1), E(r2, f2))), "instance-holds-no-state", rp)
+            rec.witness("instance-reused", W)
+        r = rec.result(worlds=len(worlds))
+        if total is None:
+            total = r
+        else:
+            for k in ("obligations", "unsat", "validated"):
+                total[k] += r[k]
+            total["violations"] += r["violations"]
+            for k, v in r["vacuity"].items():
+                total["vacuity"][k] = total["vacuity"].get(k, False) or v
+            for k, v in r["stats"].items():
+                if isinstance(v, (int, float)):
+                    total["stats"][k] = total["stats"].get(k, 0) + v
+    return total
+
+
 def verdict(res, E):
     snap, after, same_objs, got, exp, fresh, newlib = res
     conds = [same_objs, fresh, newlib, E(snap, after), len(got) == len(snap), sorted(exp) == list(range(len(snap)))]
@@ -215,7 +271,7 @@ def main():
                   "keys": "every String/Entry key one symbolic character over {a,b} (collisions produce DuplicateBlockKeyBlock wrappers)",
                   "orders": sorted(ORDERS), "comment modes": [True, False]}
     chk.assumptions = ["block_type_order ranges over the five listed orders (full, reversed, single, empty, partial)", "keys are one character; empty keys occur through key-less blocks"]
-    chk.expected_vacuity = ["reordered", "duplicate-wrapper-sorted"]
+    chk.expected_vacuity = ["reordered", "duplicate-wrapper-sorted", "instance-reused"]
     # comments with empty text, and comments that compare equal to one another (a comment is a comment by type, and the
     # comment run above a block is found by position, not by value)
     extra = []
@@ -232,6 +288,9 @@ def main():
     chk.bounds["after remove"] = f"{len(rem)} sequences with two same-kind keyed blocks, first block removed before sorting"
     for s in rem:
         chk.add_task(f"rem0-{s}", task, kinds=s, remove_idx=0)
+    chk.bounds["one instance, two libraries"] = "ESE, SES, EIE, XES, EE with the keys of the second library swapped (a<->b); default and reversed order, both modes"
+    for s in ("ESE", "SES", "EIE", "XES", "EE"):
+        chk.add_task(f"reuse-{s}", task_reuse, kinds=s)
     chk.run()
 
 
